@@ -85,4 +85,9 @@ def run(ctx):
             pre = 9
         cell = target - pre
         real.append(row_case("c04_real_%d" % i, M, [cell], False))
+    # medium-sized messages at the real limit (1 KiB .. 100 KiB): far below the packet limit, so exactly one packet
+    # each whatever the client announced as its own max_packet_size in the handshake
+    mid = [row_case("c04_mid_%d" % j, M, [sz], bool(j % 2), implicit=bool(j % 3 == 0)) for j, sz in
+           enumerate([600, 1100, 2000, 4095, 4096, 5000, 9000, 20000, 65535, 65536, 70000, 100000])]
+    ctx.diff_conn(mid, tag="C04mid", oracle=oracle, nontrivial=lambda c, o: True, classify=lambda c, o: ["lim_real_mid"])
     ctx.impl_only(real, oracle=oracle, nontrivial=lambda c, o: True, classify=lambda c, o: ["lim_real"], tag="C04real")
